@@ -151,6 +151,10 @@ def probes(ctx):
                 a = fr["sup"][sym][0] * Fraction(1, 100) * f
                 exp = "reject"
             out.append((f"withdraw[{sym},{tag}]", "withdraw", (lambda a=a, sym=sym: m.withdraw(tok[sym], dec(a))), exp, {"token": sym, "amount": a}))
+        # the whole supply at once (amount None): accepted only if the health factor allows all of it to go
+        whole = fr["sup"][sym][0]
+        exp_all = "accept" if lim >= whole * Fraction(1001, 1000) or lim == whole else ("reject" if lim <= whole * Fraction(999, 1000) else None)
+        out.append((f"withdraw[{sym},None]", "withdraw", (lambda sym=sym: m.withdraw(tok[sym])), exp_all, {"token": sym, "amount": whole}))
         out.append((f"withdraw[{sym},max]", "withdraw_max", (lambda sym=sym: m.withdraw(tok[sym], m.get_max_withdraw_amount(tok[sym]))),
                     None, {"token": sym, "limit": lim}))
         amt, val, coll = fr["sup"][sym]
